@@ -11,9 +11,45 @@ import (
 	"verif/harness/hlib"
 )
 
+type opd struct {
+	K string `json:"k"` // scheme host path qs hash user pw qargs copy raw0 raw1 update parse reset
+	V hlib.B `json:"v,omitempty"`
+	H hlib.B `json:"h,omitempty"` // host argument of a parse operation
+}
+
 type desc struct {
-	Host hlib.B `json:"host,omitempty"` // host argument of URI.Parse (usually empty: absolute URI)
-	URI  hlib.B `json:"uri"`
+	Host     hlib.B `json:"host,omitempty"` // host argument of URI.Parse (usually empty: absolute URI)
+	URI      hlib.B `json:"uri"`
+	Reuse    bool   `json:"reuse,omitempty"`    // every URI object is a dirty re-used one (parsed, args used, flags set) instead of a fresh one
+	EmptyNil bool   `json:"emptynil,omitempty"` // pass an empty non-nil host slice instead of nil
+	Ops      []opd  `json:"ops,omitempty"`      // non-empty: an edit sequence (CEdit)
+	Bytes    bool   `json:"bytes,omitempty"`    // use the ...Bytes variants of the setters / UpdateBytes
+}
+
+// newURI returns the object to parse into: fresh, or one that has been used for something else before.
+func newURI(reuse bool) *fasthttp.URI {
+	if !reuse {
+		return &fasthttp.URI{}
+	}
+	u := fasthttp.AcquireURI()
+	if err := u.Parse([]byte("ignored"), []byte("HTTPS://du:dp@Dirty.Example:99/dp/../dx%2Fy?dq=1&dz=2&dq=3#dhash")); err != nil {
+		panic(err)
+	}
+	u.QueryArgs().Add("zz", "1")
+	u.DisablePathNormalizing = true
+	_ = u.FullURI()
+	_ = u.RequestURI()
+	return u
+}
+
+func hostArg(d desc) []byte {
+	if len(d.Host) == 0 {
+		if d.EmptyNil {
+			return []byte{}
+		}
+		return nil
+	}
+	return cp(d.Host)
 }
 
 var schemes = []string{"http", "https", "HTTP", "hTTps", "Https", "ftp", "a+b", "", "1x", "h%74tp", "ws", "http:x"}
@@ -91,10 +127,47 @@ func corpus() []desc {
 	for _, hu := range [][2]string{{"example.com", "/a/b?c=d"}, {"Example.COM:80", "/"}, {"h", ""}, {"h", "p?q#f"}, {"h", "http://other/x"}, {"h", "/r?u=http://x//y"}, {"[::1]", "/x"}, {"a%25b", "/x"}, {"u@h", "/x"}, {"a/b", "/x"}, {"h", "//o/p"}} {
 		c = append(c, desc{Host: []byte(hu[0]), URI: []byte(hu[1])})
 	}
+	base := "http://Example.com/a/b/c?x=1&y=2#f"
+	for _, ops := range [][]opd{
+		{{K: "qargs"}, {K: "qs", V: []byte("n=1")}},                                  // SetQueryString must forget the parsed args
+		{{K: "qargs"}, {K: "update", V: []byte("?n=1")}}, {{K: "qargs"}, {K: "copy"}}, // CopyTo carries args and flag
+		{{K: "raw1"}, {K: "copy"}}, {{K: "raw1"}, {K: "path", V: []byte("/x/../y%2F")}}, {{K: "raw1"}, {K: "parse", V: []byte("http://h/a/../b")}},
+		{{K: "path", V: []byte("/p/../q//r/./s")}}, {{K: "path", V: []byte("rel")}}, {{K: "path", V: []byte("")}}, {{K: "path", V: []byte("*")}},
+		{{K: "scheme", V: []byte("HTTPS")}}, {{K: "scheme", V: []byte("")}}, {{K: "host", V: []byte("UPPER.Host:81")}}, {{K: "hash", V: []byte("h#h?h")}},
+		{{K: "qs", V: []byte("a=b#c")}}, {{K: "qs", V: []byte("")}}, {{K: "user", V: []byte("u")}, {K: "pw", V: []byte("p")}},
+		{{K: "update", V: []byte("rel")}}, {{K: "update", V: []byte("../up")}}, {{K: "update", V: []byte("/abs?z")}}, {{K: "update", V: []byte("#nf")}},
+		{{K: "update", V: []byte("//other/p")}}, {{K: "update", V: []byte("https://o/p?q#f")}}, {{K: "update", V: []byte("://o/p")}}, {{K: "update", V: []byte("a//b")}},
+		{{K: "update", V: []byte("//bad host/")}, {K: "path", V: []byte("/after")}}, {{K: "update", V: []byte("")}},
+		{{K: "reset"}}, {{K: "reset"}, {K: "path", V: []byte("/x")}}, {{K: "reset"}, {K: "update", V: []byte("rel")}},
+		{{K: "parse", V: []byte("/only/path?q")}, {K: "update", V: []byte("x")}}, {{K: "parse", H: []byte("H2"), V: []byte("/p")}},
+		{{K: "parse", V: []byte("http://[::1]]/")}, {K: "hash", V: []byte("x")}},
+	} {
+		for _, reuse := range []bool{false, true} {
+			c = append(c, desc{URI: []byte(base), Ops: ops, Reuse: reuse, Bytes: reuse})
+		}
+	}
+	for _, u := range []string{"http://h/a?b#c", "HTTP://U:P@H:80/%2e%2e/x?q=%zz#%"} {
+		c = append(c, desc{URI: []byte(u), Reuse: true}, desc{URI: []byte(u), EmptyNil: true})
+	}
 	return c
 }
 
 func gen(r *rand.Rand, i int) desc {
+	d := gen0(r, i)
+	d.Reuse = r.Intn(2) == 0
+	d.EmptyNil = r.Intn(4) == 0
+	if r.Intn(4) == 0 { // an edit sequence on a mostly well-formed URI
+		if r.Intn(3) != 0 {
+			d.Host = nil
+			d.URI = []byte(hlib.Pick(r, schemes[:5]) + "://" + hlib.Pick(r, hosts[:6]) + maybe(r, 30, ports[:1]) + "/" + hlib.Pick(r, segs) + "/" + hlib.Pick(r, segs) + maybe(r, 50, queries) + maybe(r, 30, frags))
+		}
+		d.Ops = genOps(r)
+		d.Bytes = r.Intn(2) == 0
+	}
+	return d
+}
+
+func gen0(r *rand.Rand, i int) desc {
 	if r.Intn(12) == 0 { // request-line form against a separate host
 		var sb strings.Builder
 		n := r.Intn(4)
@@ -136,9 +209,13 @@ func run(d desc) (c hlib.Case) {
 				Coq: hlib.App("CPanic", hlib.Hex(d.Host), hlib.Hex(d.URI), hlib.N(uint64(stage)))}
 		}
 	}()
+	if len(d.Ops) > 0 {
+		return runEdit(d, &stage)
+	}
 	c = hlib.Case{Kind: "uri", Size: len(d.URI)}
-	var u fasthttp.URI
-	err := u.Parse(cp(d.Host), cp(d.URI))
+	up := newURI(d.Reuse)
+	u := up
+	err := u.Parse(hostArg(d), cp(d.URI))
 	stage = 1
 	nu, nerr := url.Parse(string(d.URI))
 	nuF := []string{hlib.Bool(false), hlib.Hex(nil), hlib.Hex(nil), hlib.Hex(nil)}
@@ -147,49 +224,230 @@ func run(d desc) (c hlib.Case) {
 	}
 	if err != nil {
 		e := obsOf(nil, err)
-		args := []string{hlib.Hex(d.Host), hlib.Hex(d.URI), e, hlib.Hex(nil), hlib.Hex(nil), hlib.Hex(nil), hlib.Hex(nil), e, e, "[]", hlib.Hex(nil), e, "[]", e, "[]"}
+		args := []string{hlib.Hex(d.Host), hlib.Hex(d.URI), e, hlib.Hex(nil), hlib.Hex(nil), hlib.Hex(nil), hlib.Hex(nil), "true", hlib.Hex(nil), hlib.Hex(nil), e, e, "[]", hlib.Hex(nil), e, "[]", e, "[]"}
 		c.Coq = hlib.App("CUri", append(args, nuF...)...)
 		c.Kind = "uri-rejected"
 		c.Sig = fmt.Sprintf("rej-%.24s-nu%v", err.Error(), nerr == nil)
 		return c
 	}
-	p := obsOf(&u, nil)
+	p := obsOf(u, nil)
 	user, pw := cp(u.Username()), cp(u.Password())
 	host := cp(u.Host())
 	full, req := cp(u.FullURI()), cp(u.RequestURI())
-	var uf, ur fasthttp.URI
+	stable := string(u.FullURI()) == string(full) && string(u.RequestURI()) == string(req) && string(u.FullURI()) == string(full) && string(u.RequestURI()) == string(req)
+	u.DisablePathNormalizing = true
+	reqRaw, fullRaw := cp(u.RequestURI()), cp(u.FullURI())
+	u.DisablePathNormalizing = false
+	stable = stable && string(u.RequestURI()) == string(req) && string(u.FullURI()) == string(full)
+	uf, ur := newURI(d.Reuse), newURI(d.Reuse)
 	ef := uf.Parse(nil, cp(full))
 	er := ur.Parse(cp(host), cp(req))
-	pf, pr := obsOf(&uf, ef), obsOf(&ur, er)
-	args := argsOf(&u, nil) // QueryArgs(): from now on the URI serialises its args
+	pf, pr := obsOf(uf, ef), obsOf(ur, er)
+	args := argsOf(u, nil) // QueryArgs(): from now on the URI serialises its args
 	fullA, reqA := cp(u.FullURI()), cp(u.RequestURI())
-	var ufa, ura fasthttp.URI
+	ufa, ura := newURI(d.Reuse), newURI(d.Reuse)
 	efa := ufa.Parse(nil, cp(fullA))
 	era := ura.Parse(cp(host), cp(reqA))
-	pfa, pra := obsOf(&ufa, efa), obsOf(&ura, era)
-	argsA, argsR := argsOf(&ufa, efa), argsOf(&ura, era)
-	a := []string{hlib.Hex(d.Host), hlib.Hex(d.URI), p, hlib.Hex(user), hlib.Hex(pw), hlib.Hex(full), hlib.Hex(req), pf, pr, args, hlib.Hex(fullA), pfa, argsA, pra, argsR}
+	pfa, pra := obsOf(ufa, efa), obsOf(ura, era)
+	argsA, argsR := argsOf(ufa, efa), argsOf(ura, era)
+	a := []string{hlib.Hex(d.Host), hlib.Hex(d.URI), p, hlib.Hex(user), hlib.Hex(pw), hlib.Hex(full), hlib.Hex(req), hlib.Bool(stable), hlib.Hex(reqRaw), hlib.Hex(fullRaw), pf, pr, args, hlib.Hex(fullA), pfa, argsA, pra, argsR}
 	c.Coq = hlib.App("CUri", append(a, nuF...)...)
 	s := string(d.URI)
 	c.Sig = fmt.Sprintf("ok-h%v-abs%v-u%v-br%v-pct%v-port%v-q%v-f%v-nu%v-esc%v-dots%v-sch%s", len(d.Host) > 0, strings.Contains(s, "//"), len(user) > 0, len(host) > 0 && host[0] == '[',
 		strings.Contains(string(host), "%"), strings.Contains(strings.TrimPrefix(string(host), "["), ":"), len(u.QueryString()) > 0, len(u.Hash()) > 0, nerr == nil,
 		strings.Contains(string(req), "%"), strings.Contains(s, "/."), string(u.Scheme()))
+	c.Sig += fmt.Sprintf("-r%v", d.Reuse)
 	if strings.Contains(string(host), "%") {
 		c.Kind = "uri-pcthost"
 	}
 	return c
 }
 
+func snapOf(u *fasthttp.URI) string {
+	return hlib.App("Snap", hlib.Hex(u.Scheme()), hlib.Hex(u.Host()), hlib.Hex(u.Path()), hlib.Hex(u.PathOriginal()), hlib.Hex(u.QueryString()), hlib.Hex(u.Hash()),
+		hlib.Hex(u.Username()), hlib.Hex(u.Password()), hlib.Hex(cp(u.FullURI())), hlib.Hex(cp(u.RequestURI())))
+}
+
+func coqOp(o opd) string {
+	switch o.K {
+	case "scheme":
+		return hlib.App("USetScheme", hlib.Hex(o.V))
+	case "host":
+		return hlib.App("USetHost", hlib.Hex(o.V))
+	case "path":
+		return hlib.App("USetPath", hlib.Hex(o.V))
+	case "qs":
+		return hlib.App("USetQueryString", hlib.Hex(o.V))
+	case "hash":
+		return hlib.App("USetHash", hlib.Hex(o.V))
+	case "user":
+		return hlib.App("USetUsername", hlib.Hex(o.V))
+	case "pw":
+		return hlib.App("USetPassword", hlib.Hex(o.V))
+	case "qargs":
+		return "UQueryArgs"
+	case "copy":
+		return "UCopyTo"
+	case "raw0":
+		return "(URaw false)"
+	case "raw1":
+		return "(URaw true)"
+	case "update":
+		return hlib.App("UUpdate", hlib.Hex(o.V))
+	case "parse":
+		return hlib.App("UParse", hlib.Hex(o.H), hlib.Hex(o.V))
+	case "reset":
+		return "UReset"
+	}
+	panic("unknown op " + o.K)
+}
+
+func runEdit(d desc, stage *int) hlib.Case {
+	c := hlib.Case{Kind: "edit", Size: len(d.URI)}
+	u := newURI(d.Reuse)
+	err := u.Parse(hostArg(d), cp(d.URI))
+	*stage = 1
+	var ops, snaps []string
+	e := obsOf(nil, fmt.Errorf("x"))
+	if err != nil {
+		c.Coq = hlib.App("CEdit", hlib.Hex(d.Host), hlib.Hex(d.URI), "[]", "[]", e, "[]", "[]")
+		c.Kind = "edit-rejected"
+		c.Sig = "edit-rej"
+		return c
+	}
+	snaps = append(snaps, snapOf(u))
+	sig := "edit"
+	for _, o := range d.Ops {
+		v := cp(o.V)
+		switch o.K {
+		case "scheme":
+			if d.Bytes {
+				u.SetSchemeBytes(v)
+			} else {
+				u.SetScheme(string(v))
+			}
+		case "host":
+			if d.Bytes {
+				u.SetHostBytes(v)
+			} else {
+				u.SetHost(string(v))
+			}
+		case "path":
+			if d.Bytes {
+				u.SetPathBytes(v)
+			} else {
+				u.SetPath(string(v))
+			}
+		case "qs":
+			if d.Bytes {
+				u.SetQueryStringBytes(v)
+			} else {
+				u.SetQueryString(string(v))
+			}
+		case "hash":
+			if d.Bytes {
+				u.SetHashBytes(v)
+			} else {
+				u.SetHash(string(v))
+			}
+		case "user":
+			if d.Bytes {
+				u.SetUsernameBytes(v)
+			} else {
+				u.SetUsername(string(v))
+			}
+		case "pw":
+			if d.Bytes {
+				u.SetPasswordBytes(v)
+			} else {
+				u.SetPassword(string(v))
+			}
+		case "qargs":
+			u.QueryArgs()
+		case "copy":
+			dst := newURI(true)
+			u.CopyTo(dst)
+			u = dst
+		case "raw0":
+			u.DisablePathNormalizing = false
+		case "raw1":
+			u.DisablePathNormalizing = true
+		case "update":
+			if d.Bytes {
+				u.UpdateBytes(v)
+			} else {
+				u.Update(string(v))
+			}
+		case "parse":
+			h := cp(o.H)
+			if len(h) == 0 {
+				h = nil
+			}
+			_ = u.Parse(h, v)
+		case "reset":
+			u.Reset()
+		}
+		ops = append(ops, coqOp(o))
+		snaps = append(snaps, snapOf(u))
+		sig += "-" + o.K
+	}
+	full := cp(u.FullURI())
+	uf := newURI(d.Reuse)
+	ef := uf.Parse(nil, cp(full))
+	pf := obsOf(uf, ef)
+	argsU := argsOf(u, nil)
+	argsF := argsOf(uf, ef)
+	c.Coq = hlib.App("CEdit", hlib.Hex(d.Host), hlib.Hex(d.URI), hlib.List(ops), hlib.List(snaps), pf, argsU, argsF)
+	if len(sig) > 60 {
+		sig = sig[:60]
+	}
+	c.Sig = fmt.Sprintf("%s-r%v-b%v-pf%v", sig, d.Reuse, d.Bytes, ef == nil)
+	return c
+}
+
+var setVals = []string{"", "a", "/a/b", "/a/../b/./c//d", "a b", "%2F%2e%2e", "x?y", "x#y", "é", "\x7f", "*", "HTTP", "ftp", "1x", "Example.COM", "a/b", "[::1]", "a%b", "k=v&k2=v2", "k=%26&=x&&y", "a=b#c", "%zz", "+ +"}
+var updVals = []string{"", "?q=2", "#frag", "/abs/path?x=1", "rel", "rel/x?y#z", "../up", "./here", "//other.host/p", "https://New.Host:8/p?q#f", "://h2/x", "a//b", "x:y//z", "http:/a//b", "?", "#", "/", "%zz", "//[::1]]/", "//bad host/", "?a=b#c", "..", "*"}
+
+func genOps(r *rand.Rand) []opd {
+	n := 1 + r.Intn(4)
+	var ops []opd
+	kinds := []string{"scheme", "host", "path", "path", "qs", "qs", "hash", "user", "pw", "qargs", "qargs", "copy", "raw0", "raw1", "update", "update", "update", "parse", "reset"}
+	for i := 0; i < n; i++ {
+		k := hlib.Pick(r, kinds)
+		o := opd{K: k}
+		switch k {
+		case "update":
+			o.V = []byte(hlib.Pick(r, updVals))
+			if r.Intn(4) == 0 {
+				o.V = genURI(r)
+			}
+		case "parse":
+			o.V = genURI(r)
+			if r.Intn(3) == 0 {
+				o.H = []byte(hlib.Pick(r, hosts[:12]))
+			}
+		case "scheme", "host", "path", "qs", "hash", "user", "pw":
+			o.V = []byte(hlib.Pick(r, setVals))
+			if r.Intn(4) == 0 {
+				o.V = []byte(hlib.Pick(r, segs))
+			}
+		}
+		ops = append(ops, o)
+	}
+	return ops
+}
+
 func main() {
 	hlib.Main(hlib.Prop[desc]{
 		ID:       "C27",
-		Imports:  "From FH Require Import Model.Base Check.C27Check.",
+		Imports:  "From FH Require Import Model.Base Model.UriOps Check.C27Check.",
 		CaseType: "c27case",
 		CorrOK:   "corr_ok",
 		PropOK:   "prop_ok",
 		Rule: "URI strings <= 120 bytes from a grammar: scheme (mixed case, invalid, missing) x '://' variants x userinfo x host (names, upper case, IPv6 literals with zones/ports/garbage, escapes >= 0x80, %25, invalid escapes, reserved and non-ASCII bytes) x port x " +
 			"path segments (dots, escapes of reserved characters, '+', space, backslash, invalid escapes, '*') x query x fragment, with 1-2 byte mutations over reserved characters; also request-line forms parsed against a separate host argument; " +
-			"each case records Parse, FullURI/RequestURI before and after QueryArgs(), their re-parses with arguments, and the real net/url.Parse result; non-trivial = distinct class of (accepted?, shape flags, scheme)",
+			"half of the cases parse into dirty re-used (pooled) objects; a quarter are edit sequences (all setters in string and []byte form, QueryArgs, CopyTo, DisablePathNormalizing, Update/UpdateBytes in every branch, Parse again, Reset) with a snapshot of every getter and both serialisations after each step; " +
+			"each case records Parse, FullURI/RequestURI (repeated calls, with and without DisablePathNormalizing) before and after QueryArgs(), their re-parses with arguments, and the real net/url.Parse result; non-trivial = distinct class of (accepted?, shape flags, scheme)",
 		Corpus: corpus,
 		Gen:    gen,
 		Run:    run,
